@@ -427,6 +427,9 @@ def bytes_decode(it, b, args, kwargs):
     atoms = bytes_atoms(it, b)
     if all(isinstance(x, int) for x in atoms):
         return it.nat(lambda: bytes(atoms).decode(*args, **kwargs))
+    opaque = getattr(it, "opaque_decode", None)
+    if opaque is not None:
+        return opaque(atoms)  # kept as a function of the byte tuple
     cs = []
     for x in atoms:
         if isinstance(x, int):
@@ -446,6 +449,8 @@ def binop(it, op, a, b, inplace=False):
     t = type(op)
     if hasattr(a, "__symex_binop__"):
         return a.__symex_binop__(it, t, b)
+    if hasattr(b, "__symex_rbinop__"):
+        return b.__symex_rbinop__(it, t, a)
     if isinstance(a, (SStr, str)) and isinstance(b, (SStr, str)) and (is_sym(a) or is_sym(b)):
         if t is ast.Add:
             return strs.s_concat(a, b)
